@@ -101,13 +101,13 @@ open SpecPlan CalcGeo CalcComplete
 /-- **`ingest` of the canonical proof of a duplicate-free list of live leaves on a full forest**
 (with arbitrary surplus hashes appended) succeeds and changes nothing: the result satisfies `FInv`
 for the same forest and has the same look-ups, counters and flags -/
-theorem finv_ingest (cr : CR H) {m : MapPollard H} {F : Forest H} (s : FInv m F)
+theorem finv_ingest (nz : NZ H) {m : MapPollard H} {F : Forest H} (s : FInv m F)
     (L : List H) (ts : List Pos) (ps junk : List H) (hnd : L.Nodup) (hc : F.canon L = some (ts, ps)) :
     ∃ m', MapPollard.ingest L (ts.map (encP F.rows)) (ps ++ junk) m = (m', .ok ()) ∧ FInv m' F ∧
       (∀ p, m'.getNode p = m.getNode p) ∧ (∀ x, m'.getCached x = m.getCached x) ∧
       m'.numLeaves = m.numLeaves ∧ m'.totalRows = m.totalRows ∧ m'.full = m.full := by
-  have I := s.inv cr
-  have Lw := s.laws cr
+  have I := s.inv nz
+  have Lw := s.laws nz
   have hn64 := s.n_lt64
   obtain ⟨A, C, rep, fa⟩ := s.abs
   have hT := s.total_le
@@ -177,8 +177,8 @@ theorem finv_ingest (cr : CR H) {m : MapPollard H} {F : Forest H} (s : FInv m F)
       | none => (ts.map (E F.rows)).map (fun _ => zero)) = ts.map (valAt CTree.hash F) := by
     rw [canon_target_vals hc]
     simp [CTree.hash]
-  obtain ⟨r, h5, _, _, hnodes⟩ := calc_generic (Nat.le_of_lt s.n_lt) cr.nonzero s.hyg.nz hnd hc CTree.hash
-    (fun a b ga gb => hash_node_comb cr.nonzero ga gb) (fun _ _ _ _ _ _ _ => rfl) (some L) hdh junk
+  obtain ⟨r, h5, _, _, hnodes⟩ := calc_generic (Nat.le_of_lt s.n_lt) nz.nonzero s.hyg.nz hnd hc CTree.hash
+    (fun a b ga gb => hash_node_comb nz.nonzero ga gb) (fun _ _ _ _ _ _ _ => rfl) (some L) hdh junk
   have h5' : calculateHashes m.numLeaves (some L) (ts.map (encP F.rows)) (ps ++ junk) = .ok r := by
     rw [s.n_eq]; exact h5
   -- (7) the calculated nodes in storage coordinates
@@ -204,7 +204,7 @@ theorem finv_ingest (cr : CR H) {m : MapPollard H} {F : Forest H} (s : FInv m F)
       have hdec := contains_eq hT ts (fun t ht => vT (tsB t ht)) (vT (psB q hq))
       rw [hdec] at hcont
       have hqts : q ∈ ts := of_decide_eq_true hcont
-      exact fa.csto q _ (ts_val cr hn64 s.hyg hc hqts).2 (fun h => h))
+      exact fa.csto q _ (ts_val nz hn64 s.hyg hc hqts).2 (fun h => h))
   have hTR2 := rep2.rows.trans rep.rows.symm
   obtain ⟨e1, e2⟩ := same_lookups rep rep2
   refine ⟨_, hrun, ?_, e1, e2, hn2, hTR2, hf2.trans s.full.symm⟩
@@ -219,13 +219,13 @@ open SpecPlan CalcGeo CalcComplete
 
 /-- **`Verify(delHashes, proof, remember)` on the canonical proof of a duplicate-free list of live
 leaves** (with arbitrary surplus hashes appended) succeeds on a full forest and changes nothing -/
-theorem finv_verifyM (cr : CR H) {m : MapPollard H} {F : Forest H} (s : FInv m F)
+theorem finv_verifyM (nz : NZ H) {m : MapPollard H} {F : Forest H} (s : FInv m F)
     (L : List H) (ts : List Pos) (ps junk : List H) (hnd : L.Nodup) (hc : F.canon L = some (ts, ps))
     (remember : Bool) :
     ∃ m', MapPollard.verifyM L (ts.map (encP F.rows)) (ps ++ junk) remember m = (m', .ok ()) ∧ FInv m' F ∧
       (∀ p, m'.getNode p = m.getNode p) ∧ (∀ x, m'.getCached x = m.getCached x) ∧
       m'.numLeaves = m.numLeaves ∧ m'.totalRows = m.totalRows ∧ m'.full = m.full := by
-  have I := s.inv cr
+  have I := s.inv nz
   have h63 : F.rows ≤ 63 := MapInv.rows_le_63 I
   have tsV : ∀ t ∈ ts, MapInv.Valid F.rows t := by
     intro t ht
@@ -256,7 +256,7 @@ theorem finv_verifyM (cr : CR H) {m : MapPollard H} {F : Forest H} (s : FInv m F
       exact this
     · rw [if_neg hne]
   have hroots : m.getRoots.1 = F.roots := Props.C09.roots_eq I
-  have hver := Props.C02.honest_proof_verifies F (Nat.le_of_lt s.n_lt) cr.nonzero s.hyg.nz L ts ps junk hnd hc
+  have hver := Props.C02.honest_proof_verifies F (Nat.le_of_lt s.n_lt) nz.nonzero s.hyg.nz L ts ps junk hnd hc
   have hver' : verify m.numLeaves m.getRoots.1 L (ts.map (encP F.rows)) (ps ++ junk) =
       .ok (touchedIdx F.numLeaves ts) := by
     rw [hroots, s.n_eq]; exact hver
@@ -268,7 +268,7 @@ theorem finv_verifyM (cr : CR H) {m : MapPollard H} {F : Forest H} (s : FInv m F
   | false =>
     exact ⟨m, by simp, s, fun _ => rfl, fun _ => rfl, rfl, rfl, rfl⟩
   | true =>
-    obtain ⟨m', hrun, s', e1, e2, e3, e4, e5⟩ := finv_ingest cr s L ts ps junk hnd hc
+    obtain ⟨m', hrun, s', e1, e2, e3, e4, e5⟩ := finv_ingest nz s L ts ps junk hnd hc
     refine ⟨m', ?_, s', e1, e2, e3, e4, e5⟩
     simp only [if_true]
     rw [hrun]
